@@ -76,17 +76,34 @@ func c06Nested(depth int, bits []bool, pos *int, tag string) (src, out string) {
 	s1, o1 := body(tag + "a")
 	s2, o2 := body(tag + "b")
 	s3, o3 := body(tag + "c")
-	src = "{% if " + name(c1) + " %}<" + s1 + ">{% elseif " + name(c2) + " %}[" + s2 + "]{% else %}(" + s3 + "){% endif %}"
+	// what stands around the inner chain inside each branch: style 0 text on both sides; 1 the inner chain directly
+	// behind the tag, text after it; 2 nothing but the inner chain; 3 the inner chain directly behind the tag, a print after it
+	pre := [3]string{"<", "[", "("}
+	post := [3]string{">", "]", ")"}
+	postOut := post
+	switch c06NestStyle {
+	case 1:
+		pre = [3]string{}
+	case 2:
+		pre, post, postOut = [3]string{}, [3]string{}, [3]string{}
+	case 3:
+		pre = [3]string{}
+		post = [3]string{"{{ 'P' }}", "{{ 'Q' }}", "{{ 'R' }}"}
+		postOut = [3]string{"P", "Q", "R"}
+	}
+	src = "{% if " + name(c1) + " %}" + pre[0] + s1 + post[0] + "{% elseif " + name(c2) + " %}" + pre[1] + s2 + post[1] + "{% else %}" + pre[2] + s3 + post[2] + "{% endif %}"
 	switch {
 	case c1:
-		out = "<" + o1 + ">"
+		out = pre[0] + o1 + postOut[0]
 	case c2:
-		out = "[" + o2 + "]"
+		out = pre[1] + o2 + postOut[1]
 	default:
-		out = "(" + o3 + ")"
+		out = pre[2] + o3 + postOut[2]
 	}
 	return
 }
+
+var c06NestStyle int
 
 const c06LoopBody = "{{ v }}:{{ loop.index }},{{ loop.index0 }},{{ loop.revindex }},{{ loop.revindex0 }},{{ loop.first }},{{ loop.last }},{{ loop.length }};"
 
@@ -284,7 +301,7 @@ func c06Levels(tier string) []core.Level {
 				}
 			}
 		}},
-		{Name: "nested chains (if/elseif/else in every branch): depth 2 under every truth assignment (8 conditions), depth 3 under every 10-bit pattern applied cyclically to its 26 conditions", Gen: func(emit func(core.Case)) {
+		{Name: "nested chains (if/elseif/else in every branch; the inner chain between text, directly behind the tag with text or a print after it, or alone in the branch): depth 2 under every truth assignment (8 conditions), depth 3 under every 10-bit pattern applied cyclically to its 26 conditions", Gen: func(emit func(core.Case)) {
 			for depth := 2; depth <= 3; depth++ {
 				nb := 2
 				if depth == 2 {
@@ -297,9 +314,13 @@ func c06Levels(tier string) []core.Level {
 					for i := range bits {
 						bits[i] = m&(1<<uint(i)) != 0
 					}
-					pos := 0
-					src, out := c06Nested(depth, bits, &pos, "")
-					emit(core.Case{Fam: "tpl", Src: src, Exp: out})
+					for style := 0; style < 4; style++ {
+						pos := 0
+						c06NestStyle = style
+						src, out := c06Nested(depth, bits, &pos, "")
+						c06NestStyle = 0
+						emit(core.Case{Fam: "tpl", Src: "|" + src + "|", Exp: "|" + out + "|"})
+					}
 				}
 			}
 		}},
